@@ -594,15 +594,29 @@ PROPS = {
              "nontrivial": lambda lines: any(l.startswith("begin") and (l.split()[3] == "1" or l.split()[4] != "-") for l in lines)
                                           and any(l.startswith("probe") for l in lines),
              "judge": c05_judge},
+            # the admission check of a batch (can_hold), the certain-fit arena size and a real insertion into an empty memtable
+            {"name": "arena", "harness": "arena", "driver": "arena", "quick_cases": 4000, "thorough_cases": 60000,
+             "judge": pattern_judge, "model_is_spec": True,
+             "nontrivial": lambda lines: any(l.startswith("probe") and len(l.split()) > 3 for l in lines)},
+            # store level: transactions at and beyond the memtable capacity among ordinary ones, crash images, reopen
+            _CRASH_STREAM,
         ],
-        "rule": "the real CommitPipeline under controlled schedules with injected WAL failures and apply failures after a prefix "
+        "rule": "(faults) the real CommitPipeline under controlled schedules with injected WAL failures and apply failures after a prefix "
                 "(mock environment), probes after every few steps: a failed commit must leave none of its entries visible and "
-                "later commits must behave as the model says; non-trivial = case with at least one injected failure and a probe",
+                "later commits must behave as the model says; non-trivial = case with at least one injected failure and a probe. "
+                "(arena) batches of 1-12 (thorough 1-40) sets, keys 8-40 bytes, values 0-60 or 200-3000 bytes, against an empty memtable whose "
+                "capacity sits below the all-shortest-towers limit, at it, between the limits, exactly at / one below the all-full-towers "
+                "limit, or above: MemTable::can_hold and MemTable::arena_size_for must equal the model's fitsEmpty / arenaSizeFor (node sizes "
+                "read from the code), a refused batch must fail its real insertion, a batch given its certain-fit size must succeed. "
+                "(crash) see C02: includes transactions larger than the memtable (refused with BatchTooLarge before the WAL), "
+                "transactions at the capacity limit and many-entry transactions at the limit; a refused commit must be invisible, "
+                "later commits accepted, every crash image must reopen with all acknowledged commits",
         "assumptions": [
-            "pipeline level only: file-level faults (short write, ENOSPC, EIO, fsync error) in the WAL writer and the memtable "
-            "arena poisoning after ArenaFull are not yet exercised by this check (partial)",
+            "file-level faults (short write, ENOSPC, EIO, fsync error) inside the WAL writer are not injected by this check (partial); "
+            "the failure branches are driven through the mock environment of the pipeline stream",
         ],
-        "trusted_base": ["modelled, not verified: CommitPipeline failure branches; the mock environment stands for WAL and memtable"],
+        "trusted_base": ["modelled, not verified: CommitPipeline failure branches; the mock environment stands for WAL and memtable",
+                         "arena accounting: node sizes are read from the code through the hook, the bump-allocator arithmetic is transcribed"],
     },
     "C01": {
         "lean": ["Skv.Props.C01"],
